@@ -4,7 +4,7 @@ src/callbacks.py (_makeReply literals), src/ircmsgs.py (reply message makers), C
 printability table, and the inventory of every construction site that reaches the unchecked
 `msg=` branch of IrcMsg.__init__ in src/ and plugins/."""
 import ast, glob, os, warnings
-from gen_tables import table, tree, module_assign, find_def, need, cstr, clist, cN, cbool, REPO
+from gen_tables import table, tree, module_assign, find_def, need, cstr, clist, cN, cbool, REPO, src
 
 
 def _consts_not_in(expr, var):
@@ -230,6 +230,27 @@ def gen_T06():
         need(frag in srci, 'IrcMsg.__init__: msg= branch no longer copies (%s)' % frag)
     asserts = [ast.unparse(n.test) for n in ast.walk(init) if isinstance(n, ast.Assert)]
     need('all(ircutils.isValidArgument, args)' in asserts, 'IrcMsg.__init__: argument assert missing')
+    # ---- Filter plugin: the whitelist of commands usable as a per-channel OUTPUT filter, and the shape of outFilter
+    fl = tree('plugins/Filter/plugin.py')
+    fcls = [n for n in fl.body if isinstance(n, ast.ClassDef) and n.name == 'Filter']
+    need(len(fcls) == 1, 'plugins/Filter/plugin.py: class Filter')
+    wl = [n for n in fcls[0].body if isinstance(n, ast.Assign) and ast.unparse(n.targets[0]) == '_filterCommands']
+    need(len(wl) == 1, 'Filter._filterCommands: expected exactly one assignment')
+    filter_cmds = ast.literal_eval(wl[0].value)
+    need(isinstance(filter_cmds, list) and filter_cmds and all(isinstance(x, str) for x in filter_cmds), 'Filter._filterCommands is not a list of names')
+    need(not [n for n in ast.walk(fl) if isinstance(n, ast.Attribute) and n.attr == '_filterCommands' and isinstance(n.ctx, ast.Store)]
+         and 'self._filterCommands.' not in src('plugins/Filter/plugin.py').replace('self._filterCommands:', ''),
+         'Filter._filterCommands is modified somewhere else')
+    of = [n for n in fcls[0].body if isinstance(n, ast.FunctionDef) and n.name == 'outfilter']
+    need(len(of) == 1 and 'command in self._filterCommands' in ast.unparse(of[0]) and 'getattr(self, command)' in ast.unparse(of[0]),
+         'Filter.outfilter no longer checks the whitelist')
+    oF = [n for n in fcls[0].body if isinstance(n, ast.FunctionDef) and n.name == 'outFilter']
+    need(len(oF) == 1, 'Filter.outFilter missing')
+    srcoF = ast.unparse(oF[0])
+    for frag in ("if msg.command in ('PRIVMSG', 'NOTICE'):", 'if msg.channel in self.outFilters:', 's = ircmsgs.unAction(msg)', 's = msg.args[1]',
+                 'filtercommand(myIrc, msg, [s])', 's = myIrc.s', 'msg = ircmsgs.action(msg.args[0], s, msg=msg)',
+                 'msg = ircmsgs.IrcMsg(msg=msg, args=(msg.args[0], s))'):
+        need(frag in srcoF, 'Filter.outFilter changed (missing %r)' % frag)
     sites, makers = inventory()
     np = nonprintable_ranges()
     out = 'From Coq Require Import String.\n'
@@ -252,5 +273,6 @@ def gen_T06():
     out += 'Definition MSGCTOR_SITES : list (string * string * N * string * bool * bool) :=\n  %s.\n' % clist(
         '\n   (%s, %s, %d, %s, %s, %s)' % (coqstring(f), coqstring(fn), k, coqstring(cal), cbool(a), cbool(r))
         for f, fn, k, cal, a, r in sites)
+    out += 'Definition FILTER_COMMANDS : list string := %s.\n' % clist(coqstring(m) for m in filter_cmds)
     out += 'Definition MAKERS_WITH_MSG : list string := %s.\n' % clist(coqstring(m) for m in makers)
     return 'src/ircutils.py, src/irclib.py, src/callbacks.py, src/ircmsgs.py, plugins/**', out
